@@ -74,6 +74,7 @@ fn record_of(r: &Rr) -> Record {
         Rd::Cname(n) => RData::CNAME(CNAME(name_of(n))),
         Rd::Soa(m) => RData::SOA(SOA::new(name_of(m), name_of(&child("hostmaster", &r.owner)), 1, 3600, 600, 86400, 300)),
         Rd::Txt(t) => RData::TXT(TXT::new(vec![t.clone()])),
+        Rd::Nsec(next) => RData::DNSSEC(hickory_proto::dnssec::rdata::DNSSECRData::NSEC(hickory_proto::dnssec::rdata::NSEC::new(name_of(next), [RecordType::A, RecordType::NSEC]))),
         Rd::Other(_) => unreachable!("the model never emits Other"),
     };
     Record::from_rdata(name_of(&r.owner), TTL, rdata)
@@ -92,6 +93,7 @@ fn rr_of(r: &Record) -> Rr {
                 .collect::<Vec<_>>()
                 .join(""),
         ),
+        RData::DNSSEC(hickory_proto::dnssec::rdata::DNSSECRData::NSEC(n)) => Rd::Nsec(dn_of(n.next_domain_name())),
         other => Rd::Other(format!("{other:?}")),
     };
     Rr {
